@@ -190,6 +190,36 @@ def run_case(cfg_shard, case, out):
                 viol("client-keep-alive-setting-not-applied", "client configured keep-alive %.3f but idle gaps are %.4f..%.4f" % (ka, min(gaps), max(gaps)))
             else:
                 c.inc("k1_sides_within_bound")
+        # ---------------- K1/K2 under one-directional traffic: a side that only RECEIVES application traffic is idle as a
+        #                  sender: it must keep emitting (its datagrams carry the acks and the sign of life) and nobody times out
+        for streamer in ("client", "server"):
+            dur = min(7.0, max(5.6, cfg["server_connection_timeout"] + 0.6)) if cfg["server_connection_timeout"] < 6.4 else 5.6
+            t_s0 = w.clock.now
+            n_ev = len(events)
+            for _t in range(int(dur / cfg["dt"])):
+                if streamer == "client":
+                    a.udp.send(L.make_payload(1, _t, 24), retry=0)
+                else:
+                    sc.send(L.make_payload(0, _t, 24))
+                w.step()
+            t_s1 = w.clock.now
+            c.inc("k1_one_directional_streams")
+            if len(events) != n_ev or getattr(a.udp.conn.status, "value", 0) != 2 or a.addr not in w.ctxt.connections:
+                viol("connection-lost-under-one-directional-traffic", "%s streamed for %.1fs over a working link while the other side sent nothing: client status %s, server events %r" % (
+                    streamer, dur, a.udp.conn.status, events[n_ev:]))
+                return
+            quiet = "server" if streamer == "client" else "client"
+            ems = emissions["s2c" if quiet == "server" else "c2s"].get(a.addr, [])
+            ts = [t for t in ems if t_s0 + 0.3 <= t <= t_s1]
+            ka = cfg["server_keep_alive"] if quiet == "server" else eff["keep_alive"]
+            bound = max(ka, send_interval) + tick_max + EPS
+            gaps = [y - x for x, y in zip(ts, ts[1:])]
+            if len(ts) < 2 or max(gaps) > bound:
+                viol("quiet-side-stops-emitting", "while the %s streamed, the %s (keep-alive %.3f) emitted %d datagrams in %.1fs, largest gap %s (bound %.4f)" % (
+                    streamer, quiet, ka, len(ts), dur, ("%.4f" % max(gaps)) if gaps else "n/a", bound))
+            else:
+                c.inc("k1_quiet_side_within_bound")
+            w.step(int(0.5 / cfg["dt"]) + 2)
         # ---------------- K5: a keep-alive interval changed in the middle of an idle connection takes effect at once
         #                  (lowered right after an emission made under a long interval; then raised again)
         if cfg["server_connection_timeout"] > 4.0:
@@ -234,7 +264,10 @@ def run_case(cfg_shard, case, out):
                     continue
                 t_cb, v = res[side]
                 el = t_cb - t_probe
-                lo, hi = mt - EPS, mt + send_interval + 3 * tick_max + EPS
+                # measured from the send() call: up to one send interval until the datagram is emitted, then the timeout,
+                # then up to one send interval until a tick on which the code looks for timeouts (it does so only when
+                # it is allowed to send), plus tick granularity
+                lo, hi = mt - EPS, mt + 2 * send_interval + 3 * tick_max + EPS
                 if v is not False or el < lo or el > hi:
                     viol("message-timeout-not-applied:%s" % side, "%s: callback(%r) after %.4fs, configured message timeout %.3f (window %.3f..%.3f)" % (
                         side, v, el, mt, lo, hi))
@@ -309,7 +342,7 @@ def finish(tier, seed, results):
                          "k3_client_in_window", "k4_unanswered_connects", "k4_in_window", "k4_callback_once_false", "k5_message_timeout_probes",
                          "k5_message_timeout_in_window", "setter_keep_alive_before", "setter_keep_alive_after", "setter_connect_timeout_before",
                          "setter_connect_timeout_after", "setter_message_timeout_before", "setter_message_timeout_after", "k5_keep_alive_lowered_mid_idle",
-                         "k5_keep_alive_lowered_in_window"], inconclusive)
+                         "k5_keep_alive_lowered_in_window", "k1_one_directional_streams", "k1_quiet_side_within_bound"], inconclusive)
     cov = {
         "evaluations": m["evaluations"],
         "distinct_nontrivial": m["distinct_nontrivial"],
